@@ -129,42 +129,29 @@ theorem BoundUpload.spec {s : State} {u : UploadRef} {b k : Bytes} (h : BoundUpl
       simp only [abs_upload_lookup, hl, Option.map_some]
       simp [upOf, h.1, h.2]
 
-/-- the upload `u` names does not exist: the id is not a UUID, or no upload has it -/
-def AbsentUpload (s : State) (u : UploadRef) : Prop :=
-  match u with
-  | none => True
-  | some id => alLookup id s.uploads = none
-
-/-- the upload `u` names does not exist (both sides answer `NoSuchUpload` since 4609ab3; before: fs:unknown-upload-code,
-    fs:list-parts-unknown-upload), or it exists and was created for this bucket and key [else fs:upload-not-bound-to-key] -/
-def UploadOk (s : State) (u : UploadRef) (b k : Bytes) : Prop :=
+/-- the upload `u` names does not exist under this bucket and key: the id is not a UUID, no upload has it, or the upload was
+    created for another bucket or key (6bf591c: `NoSuchUpload` on both sides; before: fs:upload-not-bound-to-key) -/
+def AbsentUpload (s : State) (u : UploadRef) (b k : Bytes) : Prop :=
   match u with
   | none => True
   | some id =>
     match alLookup id s.uploads with
     | none => True
-    | some ui => ui.bucket = b ∧ ui.key = k
+    | some ui => ¬ (ui.bucket = b ∧ ui.key = k)
 
-instance (s : State) (u : UploadRef) (b k : Bytes) : Decidable (UploadOk s u b k) := by
-  unfold UploadOk
-  split
-  · infer_instance
-  · split <;> infer_instance
-
-theorem UploadOk.cases {s : State} {u : UploadRef} {b k : Bytes} (h : UploadOk s u b k) :
-    BoundUpload s u b k ∨ AbsentUpload s u := by
-  unfold UploadOk at h
+/-- every request names an upload that exists under its bucket and key, or one that does not -/
+theorem upload_cases (s : State) (u : UploadRef) (b k : Bytes) : BoundUpload s u b k ∨ AbsentUpload s u b k := by
   unfold BoundUpload AbsentUpload
   cases u with
   | none => exact .inr trivial
   | some id =>
-    simp only at h ⊢
-    cases hl : alLookup id s.uploads with
-    | none => exact .inr rfl
-    | some ui => rw [hl] at h; exact .inl h
+    simp only
+    cases alLookup id s.uploads with
+    | none => exact .inr trivial
+    | some ui => exact Decidable.em _
 
-/-- an upload that does not exist is unknown to the store as well -/
-theorem AbsentUpload.upload {s : State} {u : UploadRef} (h : AbsentUpload s u) (b k : Bytes) :
+/-- an upload that does not exist under this bucket and key is unknown to the store as well -/
+theorem AbsentUpload.upload {s : State} {u : UploadRef} {b k : Bytes} (h : AbsentUpload s u b k) :
     (abs s).upload u b k = none := by
   unfold AbsentUpload at h
   unfold Store.upload
@@ -172,13 +159,33 @@ theorem AbsentUpload.upload {s : State} {u : UploadRef} (h : AbsentUpload s u) (
   | none => rfl
   | some id =>
     simp only at h
-    simp [abs_upload_lookup, h]
+    cases hl : alLookup id s.uploads with
+    | none => simp [abs_upload_lookup, hl]
+    | some ui =>
+      rw [hl] at h
+      have h' : ¬ (ui.bucket = b ∧ ui.key = k) := h
+      simp [abs_upload_lookup, hl, upOf, h']
 
-theorem AbsentUpload.verify {s : State} {id : Nat} (h : AbsentUpload s (some id)) (who : Who) :
-    s.verify who id = some .NoSuchUpload := by
+theorem AbsentUpload.find {s : State} {id : Nat} {b k : Bytes} (h : AbsentUpload s (some id) b k) :
+    s.findUpload id b k = none := by
   unfold AbsentUpload at h
   simp only at h
-  simp [State.verify, h]
+  unfold State.findUpload
+  cases hl : alLookup id s.uploads with
+  | none => rfl
+  | some ui =>
+    rw [hl] at h
+    have h' : ¬ (ui.bucket = b ∧ ui.key = k) := h
+    simp [h']
+
+theorem AbsentUpload.verify {s : State} {id : Nat} {b k : Bytes} (h : AbsentUpload s (some id) b k) (who : Who) :
+    s.verify who id b k = some .NoSuchUpload := by
+  simp [State.verify, h.find]
+
+/-- the record `check_upload_exists` finds for an upload created for this bucket and key -/
+theorem findUpload_bound {s : State} {id : Nat} {ui : UpInfo} {b k : Bytes} (hl : alLookup id s.uploads = some ui)
+    (hb : ui.bucket = b) (hk : ui.key = k) : s.findUpload id b k = some ui := by
+  simp [State.findUpload, hl, hb, hk]
 
 /-- `create_multipart_upload` comparable: the bucket name agrees and the metadata file name fits
     [else fs:long-key-internal-error] -/
@@ -292,12 +299,6 @@ end S3V.FsStore
 namespace S3V.FsStore
 open S3V.StoreSpec
 
-/-- `upload_part` comparable: the upload does not exist (`NoSuchUpload` on both sides) or was created for this bucket and key
-    [else fs:upload-not-bound-to-key]; any part number (outside 1..10000: `InvalidArgument` on both sides since 205d9a8;
-    before: fs:part-number-not-validated) -/
-def UploadPartOk (s : State) (b k : Bytes) (u : UploadRef) (_n : Int) : Prop :=
-  UploadOk s u b k
-
 /-- an upload with part `n` (re)written -/
 def withPart (up : Upload) (n : Int) (c : Bytes) : Upload := { up with parts := alInsert n c up.parts }
 
@@ -340,16 +341,15 @@ theorem writePart_core {s s' : State} (hi : Inv s) {id : Nat} {ui : UpInfo} {n :
     · rw [hum, hiss]; exact hi.upMetaIds
 
 theorem uploadPart_refines (H : Hashes) (dl : Nat) {s : State} (hi : Inv s) {who : Who} {b k : Bytes}
-    {u : UploadRef} {n : Int} {c : Bytes} (hg : UploadPartOk s b k u n) :
+    {u : UploadRef} {n : Int} {c : Bytes} :
     (step H dl s (.uploadPart who b k u n c)).2 = (StoreSpec.step H (abs s) (.uploadPart who b k u n c)).2 ∧
     abs (step H dl s (.uploadPart who b k u n c)).1 = (StoreSpec.step H (abs s) (.uploadPart who b k u n c)).1 ∧
     Inv (step H dl s (.uploadPart who b k u n c)).1 := by
-  have hbound : UploadOk s u b k := hg
   by_cases hrange : n < 1 ∨ n > 10000
   · simp [step, StoreSpec.step, hrange, hi]
-  · rcases hbound.cases with hbound | habs
+  · rcases upload_cases s u b k with hbound | habs
     case inr =>
-      have hup := habs.upload b k
+      have hup := habs.upload
       cases u with
       | none => simp [step, StoreSpec.step, hrange, hup, hi]
       | some id => simp [step, StoreSpec.step, hrange, hup, habs.verify who, hi]
@@ -357,7 +357,7 @@ theorem uploadPart_refines (H : Hashes) (dl : Nat) {s : State} (hi : Inv s) {who
     by_cases hown : ui.owner = who
     · have hstep : step H dl s (.uploadPart who b k (some id) n c) =
           ({ s with parts := alInsert (id, n) c s.parts }, .part (some (etagOf H c))) := by
-        simp [step, hrange, State.verify, hl, hown]
+        simp [step, hrange, State.verify, findUpload_bound hl hb hk, hown]
       have hspec : StoreSpec.step H (abs s) (.uploadPart who b k (some id) n c) =
           ({ abs s with uploads := alInsert id (withPart (upOf s id ui) n c) (abs s).uploads }, .part (some (etagOf H c))) := by
         simp [StoreSpec.step, hrange, hup, upOf, hown, withPart]
@@ -365,27 +365,21 @@ theorem uploadPart_refines (H : Hashes) (dl : Nat) {s : State} (hi : Inv s) {who
       obtain ⟨h1, h2⟩ := writePart_core (s' := { s with parts := alInsert (id, n) c s.parts }) hi hl rfl rfl rfl rfl rfl rfl rfl
       exact ⟨rfl, h1, h2⟩
     · have hown' : (upOf s id ui).owner ≠ who := hown
-      simp [step, StoreSpec.step, hrange, State.verify, hl, hown, hup, hown', hi]
-
-/-- `list_parts` comparable: the upload does not exist (`NoSuchUpload` on both sides since 4609ab3; before:
-    fs:list-parts-unknown-upload) or was created for this bucket and key [else fs:upload-not-bound-to-key] -/
-def ListPartsOk (s : State) (b k : Bytes) (u : UploadRef) : Prop := UploadOk s u b k
+      simp [step, StoreSpec.step, hrange, State.verify, findUpload_bound hl hb hk, hown, hup, hown', hi]
 
 theorem listParts_refines (H : Hashes) (dl : Nat) {s : State} (hi : Inv s) {who : Who} {b k : Bytes}
-    {u : UploadRef} (hg : ListPartsOk s b k u) :
+    {u : UploadRef} :
     (step H dl s (.listParts who b k u)).2 = (StoreSpec.step H (abs s) (.listParts who b k u)).2 ∧
     abs (step H dl s (.listParts who b k u)).1 = (StoreSpec.step H (abs s) (.listParts who b k u)).1 ∧
     Inv (step H dl s (.listParts who b k u)).1 := by
-  rcases UploadOk.cases hg with hg | habs
+  rcases upload_cases s u b k with hg | habs
   case inr =>
-    have hup := habs.upload b k
+    have hup := habs.upload
     cases u with
     | none => simp [step, StoreSpec.step, hup, hi]
-    | some id =>
-      have hl : alLookup id s.uploads = none := habs
-      simp [step, StoreSpec.step, hup, alHas, hl, hi]
+    | some id => simp [step, StoreSpec.step, hup, habs.find, hi]
   obtain ⟨id, ui, rfl, hl, hb, hk, hup⟩ := BoundUpload.spec hg
-  have hhas : alHas id s.uploads = true := by simp [alHas, hl]
+  have hhas := findUpload_bound hl hb hk
   have : (absParts s id).map (fun p => (p.1, p.2.length)) =
       s.parts.filterMap fun e => if e.1.1 = id then some (e.1.2, e.2.length) else none := by
     unfold absParts
@@ -394,10 +388,6 @@ theorem listParts_refines (H : Hashes) (dl : Nat) {s : State} (hi : Inv s) {who 
     funext e
     by_cases h : e.1.1 = id <;> simp [h]
   simp [step, StoreSpec.step, hup, upOf, this, hhas, hi]
-
-/-- `abort_multipart_upload` comparable: the upload does not exist (`NoSuchUpload` on both sides) or was created for this
-    bucket and key [else fs:upload-not-bound-to-key] -/
-def AbortOk (s : State) (b k : Bytes) (u : UploadRef) : Prop := UploadOk s u b k
 
 theorem absParts_filter_other {s : State} {id id' : Nat} (hne : id' ≠ id) :
     (s.parts.filter fun e => e.1.1 ≠ id).filterMap (fun p => if p.1.1 = id' then some (p.1.2, p.2) else none) =
@@ -417,14 +407,14 @@ theorem absParts_filter_other {s : State} {id id' : Nat} (hne : id' ≠ id) :
     · simp only [List.filter_cons, h, ne_eq, not_false_eq_true, decide_true, if_true, List.filterMap_cons, ih]
 
 theorem abort_refines (H : Hashes) (dl : Nat) {s : State} (hi : Inv s) {who : Who} {b k : Bytes}
-    {u : UploadRef} (hg : AbortOk s b k u) :
+    {u : UploadRef} :
     (step H dl s (.abortMultipartUpload who b k u)).2 = (StoreSpec.step H (abs s) (.abortMultipartUpload who b k u)).2 ∧
     abs (step H dl s (.abortMultipartUpload who b k u)).1 =
       (StoreSpec.step H (abs s) (.abortMultipartUpload who b k u)).1 ∧
     Inv (step H dl s (.abortMultipartUpload who b k u)).1 := by
-  rcases UploadOk.cases hg with hg | habs
+  rcases upload_cases s u b k with hg | habs
   case inr =>
-    have hup := habs.upload b k
+    have hup := habs.upload
     cases u with
     | none => simp [step, StoreSpec.step, hup, hi]
     | some id => simp [step, StoreSpec.step, hup, habs.verify who, hi]
@@ -433,7 +423,7 @@ theorem abort_refines (H : Hashes) (dl : Nat) {s : State} (hi : Inv s) {who : Wh
   · have hstep : step H dl s (.abortMultipartUpload who b k (some id)) =
         ({ s with upMetas := alErase (b, k, id) s.upMetas, parts := s.parts.filter (fun e => e.1.1 ≠ id),
                   uploads := alErase id s.uploads }, .ok) := by
-      simp [step, State.verify, hl, hown]
+      simp [step, State.verify, findUpload_bound hl hb hk, hown]
     have hspec : StoreSpec.step H (abs s) (.abortMultipartUpload who b k (some id)) =
         ({ abs s with uploads := alErase id (abs s).uploads }, .ok) := by
       simp [StoreSpec.step, hup, upOf, hown]
@@ -464,6 +454,6 @@ theorem abort_refines (H : Hashes) (dl : Nat) {s : State} (hi : Inv s) {who : Wh
       · exact fun e he => hi.partIds e (List.mem_filter.mp he).1
       · exact fun e he => hi.upMetaIds e (alErase_mem he)
   · have hown' : (upOf s id ui).owner ≠ who := hown
-    simp [step, StoreSpec.step, State.verify, hl, hown, hup, hown', hi]
+    simp [step, StoreSpec.step, State.verify, findUpload_bound hl hb hk, hown, hup, hown', hi]
 
 end S3V.FsStore
